@@ -348,60 +348,162 @@ Proof.
   - exact Hw.
 Qed.
 
+(* the relative change computed by a body that did not hit a zero product (as of 8dfb6bc: None = INFINITY at 0) *)
+Lemma bis_body_err_R (f : R -> res R) tol cap s s' b : bis_body f tol cap s = Ok (s', b) -> bs_exact s' = false ->
+  bs_x s' = bis_mid s /\
+  bs_err s' = if Reqb (bis_mid s) 0 then None else Some (Rabs (bis_mid s - bs_x s) / bis_mid s * 100).
+Proof.
+  unfold bis_body. fold (bis_mid s).
+  destruct (f (bs_lower s)) as [vl|e|w]; cbn [bind]; try discriminate.
+  destruct (f (bis_mid s)) as [vm|e|w]; cbn [bind]; try discriminate.
+  unfold nneb. cbn [neqb nmul ndiv nabs nsub n0 RNum]. rewrite c100_R.
+  destruct (nltb (vl * vm) 0); [|destruct (nltb 0 (vl * vm))]; intro H; injection H as <- <-;
+    cbn [bs_exact bs_x bs_err]; intro E; try discriminate;
+    (split; [reflexivity|]); unfold bis_mid; cbn [nadd ndiv RNum]; change (@ntwo R RNum) with 2;
+    destruct (Reqb ((bs_lower s + bs_upper s) / 2) 0); reflexivity.
+Qed.
+
+Lemma bis_body_continue_not_exact {T} {NT : Num T} (f : T -> res T) tol cap s s' :
+  bis_body f tol cap s = Ok (s', false) -> bs_exact s' = false.
+Proof.
+  intro H. apply bis_body_ok in H. destruct H as (vl & vm & _ & _ & _ & Hb & _).
+  symmetry in Hb. apply orb_false_elim in Hb. destruct Hb as [Hb _].
+  apply orb_false_elim in Hb. tauto.
+Qed.
+
+(* from the second body on, the previous candidate is an end of the current bracket *)
+Definition Iend (s : bstate R) : Prop := (0 < bs_iter s)%nat -> bs_x s = bs_lower s \/ bs_x s = bs_upper s.
+
+Lemma Iend_step (f : R -> res R) tol cap s s' :
+  bis_body f tol cap s = Ok (s', false) -> Iend (bs_next s').
+Proof.
+  intros H _. cbn [bs_next bs_x bs_lower bs_upper].
+  pose proof (bis_body_continue_not_exact f tol cap s s' H) as Hne.
+  apply bis_body_R in H. destruct H as (vl & vm & _ & _ & _ & Hc).
+  destruct Hc as [(_ & _ & U & X & _)|[(_ & L & _ & X & _)|(_ & _ & _ & E & _)]].
+  - right. congruence.
+  - left. congruence.
+  - congruence.
+Qed.
+
 (* PARTIAL (converse half of C06).  Proved: whenever the loop terminates with a state r
    (by whichever exit), the final bracket has width (hi-lo)/2^k with k = the number of
    halvings, still holds a sign change of g and hence (g continuous) a root z, and the
-   candidate is within (hi-lo)/2^iter of z; on the `exact` exit the candidate is a root.
-   Missing: that under "moderate scale and ample budget" the tolerance exit actually
-   fires before the cap and that the residual gate then passes — this depends on the
-   float stopping rule (relative change in percent, underflow for a root at 0) and is
-   decided by the oracle of the correspondence check, which found two classes where it
-   fails (F-C06-LOOSE-TOL, F-C06-STALE-ZERO). *)
+   candidate is within (hi-lo)/2^iter of z; on the `exact` exit the candidate is a root;
+   and (after repair 8dfb6bc, which removed the stale relative change at a midpoint 0) on
+   the tolerance exit the candidate is non-zero and the root z is within tol percent of it.
+   Missing: that under "moderate scale and ample budget" the loop leaves before the cap -
+   this depends on the float stopping rule (relative change in percent, underflow for a
+   root at 0) and is decided by the oracle of the correspondence check.  Whether the 1e-4
+   gate then passes is settled by c06_exit_before_cap_is_ok below. *)
 Lemma c06_finds_root_partial : forall (g : R -> R) lo init hi tol cap r,
   continuity g -> lo <= hi -> g lo * g hi <= 0 ->
   bis_loop (fun x => Ok (g x)) tol cap cap (bis_start {| b_lower := lo; b_init := init; b_upper := hi |}) = Ok r ->
   bs_upper r - bs_lower r = (hi - lo) / 2 ^ (if bs_exact r then bs_iter r else S (bs_iter r)) /\
   (bs_exact r = true -> g (bs_x r) = 0) /\
+  lo <= bs_x r <= hi /\
   exists z, g z = 0 /\ lo <= z <= hi /\ bs_lower r <= z <= bs_upper r /\
-            Rabs (bs_x r - z) <= (hi - lo) / 2 ^ bs_iter r.
+            Rabs (bs_x r - z) <= (hi - lo) / 2 ^ bs_iter r /\
+            (bs_exact r = false -> (bs_iter r < cap)%nat ->
+               bs_x r <> 0 /\ Rabs (bs_x r - z) * 100 < tol * Rabs (bs_x r)).
 Proof.
   intros g lo init hi tol cap r Hc Hle Hs Hl.
   set (f := fun x => Ok (g x)) in *.
-  (* invariants: sign change and width *)
-  destruct (bis_loop_last f tol cap (fun s => Isc f lo hi False s /\ Iw lo hi s)) with (fuel := cap)
-    (s := bis_start {| b_lower := lo; b_init := init; b_upper := hi |}) (r := r) as (s0 & (Hsc0 & Hw0) & Hb).
-  - intros s s' (Hi & Hw) Hb. split.
+  destruct (bis_loop_last f tol cap (fun s => Isc f lo hi False s /\ Iw lo hi s /\ Iend s)) with (fuel := cap)
+    (s := bis_start {| b_lower := lo; b_init := init; b_upper := hi |}) (r := r) as (s0 & (Hsc0 & Hw0 & He0) & Hb).
+  - intros s s' (Hi & Hw & _) Hb. split; [|split].
     + exact (Isc_step f tol cap lo hi _ s s' false Hi Hb).
     + pose proof (Iw_step f tol cap lo hi s s' false Hw Hb) as H.
-      assert (Hex : bs_exact s' = false).
-      { apply bis_body_ok in Hb. destruct Hb as (vl & vm & _ & _ & _ & Hb & _).
-        symmetry in Hb. apply orb_false_elim in Hb. destruct Hb as [Hb _].
-        apply orb_false_elim in Hb. tauto. }
-      rewrite Hex in H. unfold Iw. cbn [bs_next bs_iter bs_lower bs_upper]. exact H.
-  - split.
+      rewrite (bis_body_continue_not_exact f tol cap s s' Hb) in H.
+      unfold Iw. cbn [bs_next bs_iter bs_lower bs_upper]. exact H.
+    + exact (Iend_step f tol cap s s' Hb).
+  - split; [|split].
     + split; [apply bis_start_Ibr; exact Hle|]. exists (g lo), (g hi). cbn. repeat split; try assumption; tauto.
     + unfold Iw, bis_start. cbn. field.
+    + intro H. cbn in H. lia.
   - exact Hl.
   - pose proof (Iw_step f tol cap lo hi s0 r true Hw0 Hb) as Hw.
     pose proof (Isc_step f tol cap lo hi _ s0 r true Hsc0 Hb) as ((A & B & C) & a & b & Ha & Hb' & Hab & _).
     destruct (Ibr_step f tol cap lo hi s0 r true (proj1 Hsc0) Hb) as (_ & (D1 & D2) & (D3 & D4)).
-    split; [exact Hw|]. split.
-    + intro Hex. apply bis_body_R in Hb. destruct Hb as (vl & vm & Hvl & Hvm & _ & Hcase).
+    split; [exact Hw|]. split; [|split].
+    + intro Hex. pose proof Hb as Hb2. apply bis_body_R in Hb2. destruct Hb2 as (vl & vm & Hvl & Hvm & _ & Hcase).
       unfold f in Hvl, Hvm. injection Hvl as <-. injection Hvm as <-.
       destruct Hcase as [(_ & _ & _ & _ & E)|[(_ & _ & _ & _ & E)|(_ & _ & _ & _ & [(Z & X)|(_ & Z & X)])]];
         try congruence; rewrite X; exact Z.
+    + lra.
     + unfold f in Ha, Hb'. injection Ha as <-. injection Hb' as <-.
       destruct (IVT_cor g (bs_lower r) (bs_upper r) Hc B Hab) as (z & (Z1 & Z2) & Z3).
       exists z. split; [exact Z3|]. split; [lra|]. split; [lra|].
-      (* the candidate and z both lie in the bracket of the last body's start state *)
       destruct Hsc0 as ((A0 & B0 & C0) & _). unfold Iw in Hw0.
       assert (Hi : bs_iter r = bs_iter s0).
-      { apply bis_body_ok in Hb. destruct Hb as (vl & vm & _ & _ & Hi & _). exact Hi. }
-      rewrite Hi, <- Hw0.
-      assert (bs_lower s0 <= bs_lower r /\ bs_upper r <= bs_upper s0).
+      { pose proof Hb as Hb2. apply bis_body_ok in Hb2. destruct Hb2 as (vl & vm & _ & _ & Hi & _). exact Hi. }
+      assert (Hin : bs_lower s0 <= bs_lower r /\ bs_upper r <= bs_upper s0).
       { pose proof (Ibr_step f tol cap (bs_lower s0) (bs_upper s0) s0 r true) as H.
         destruct H as ((H1 & H2 & H3) & _); [unfold Ibr; lra|exact Hb|]. lra. }
-      apply Rabs_le. lra.
+      split.
+      * rewrite Hi, <- Hw0. apply Rabs_le. lra.
+      * intros Hne Hlt.
+        destruct (bis_body_err_R f tol cap s0 r true Hb Hne) as (Hx & He).
+        pose proof Hb as Hb2. apply bis_body_ok in Hb2. destruct Hb2 as (vl & vm & _ & _ & _ & Hbrk & _).
+        rewrite Hne in Hbrk. cbn [orb] in Hbrk.
+        replace (Nat.leb cap (bs_iter s0)) with false in Hbrk by (symmetry; apply Nat.leb_gt; lia).
+        rewrite orb_false_r in Hbrk. symmetry in Hbrk. apply andb_prop in Hbrk. destruct Hbrk as [Hpos Hsm].
+        apply Nat.ltb_lt in Hpos.
+        rewrite He in Hsm. pose proof (bis_mid_R s0) as Hm.
+        destruct (Reqb (bis_mid s0) 0) eqn:E0; [discriminate|]. apply Reqb_false in E0.
+        cbn [err_small nltb nabs RNum] in Hsm. apply Rltb_true in Hsm.
+        rewrite Hx. split; [exact E0|].
+        assert (Hp : 0 < Rabs (bis_mid s0)) by (apply Rabs_pos_lt; exact E0).
+        unfold Rdiv in Hsm. rewrite !Rabs_mult, Rabs_Rabsolu, Rabs_inv in Hsm.
+        rewrite (Rabs_pos_eq 100) in Hsm by lra.
+        apply (Rmult_lt_compat_r (Rabs (bis_mid s0))) in Hsm; [|exact Hp].
+        replace (Rabs (bis_mid s0 - bs_x s0) * / Rabs (bis_mid s0) * 100 * Rabs (bis_mid s0))
+          with (Rabs (bis_mid s0 - bs_x s0) * 100) in Hsm by (field; lra).
+        (* the previous candidate is an end of the bracket of s0, z lies inside it *)
+        assert (Hd : Rabs (bis_mid s0 - z) <= Rabs (bis_mid s0 - bs_x s0)).
+        { destruct (He0 Hpos) as [E|E]; rewrite E, Hm.
+          - replace ((bs_lower s0 + bs_upper s0) / 2 - bs_lower s0) with ((bs_upper s0 - bs_lower s0) / 2) by lra.
+            rewrite (Rabs_pos_eq ((bs_upper s0 - bs_lower s0) / 2)) by lra. apply Rabs_le. lra.
+          - replace ((bs_lower s0 + bs_upper s0) / 2 - bs_upper s0) with (- ((bs_upper s0 - bs_lower s0) / 2)) by lra.
+            rewrite Rabs_Ropp, (Rabs_pos_eq ((bs_upper s0 - bs_lower s0) / 2)) by lra. apply Rabs_le. lra. }
+        lra.
+Qed.
+
+(* what is left of the converse is ONLY the exit before the cap: if the loop leaves with iter < cap and
+   the target is L-Lipschitz on the bracket with L * tol% * max|x| <= 1e-4 (the complement of the input
+   class of finding F-C06-LOOSE-TOL), the residual gate passes and Ok is returned *)
+Lemma c06_exit_before_cap_is_ok : forall (g : R -> R) lo init hi tol cap r L X,
+  continuity g -> lo <= init <= hi -> g lo * g hi <= 0 ->
+  bis_loop (fun x => Ok (g x)) tol cap cap (bis_start {| b_lower := lo; b_init := init; b_upper := hi |}) = Ok r ->
+  (bs_iter r < cap)%nat -> 0 <= L ->
+  (forall a b, lo <= a <= hi -> lo <= b <= hi -> Rabs (g a - g b) <= L * Rabs (a - b)) ->
+  (forall x, lo <= x <= hi -> Rabs x <= X) -> L * (tol / 100 * X) < 1 / 10000 ->
+  bisection (fun x => Ok (g x)) {| b_lower := lo; b_init := init; b_upper := hi |} tol cap = Ok (bs_x r).
+Proof.
+  intros g lo init hi tol cap r L X Hc Hin Hs Hl Hlt HL0 HL HX Hsmall.
+  destruct (c06_finds_root_partial g lo init hi tol cap r Hc ltac:(lra) Hs Hl)
+    as (_ & Hex & Hxin & z & Hz & Hzin & _ & _ & Htol).
+  assert (Hgate : Rabs (g (bs_x r)) < 1 / 10000).
+  { destruct (bs_exact r) eqn:E.
+    - rewrite (Hex eq_refl), Rabs_R0. lra.
+    - destruct (Htol eq_refl Hlt) as (Hnz & Hd).
+      pose proof (HL (bs_x r) z Hxin Hzin) as H1. rewrite Hz, Rminus_0_r in H1.
+      pose proof (HX (bs_x r) Hxin) as H2.
+      assert (H0 : 0 <= Rabs (bs_x r - z)) by apply Rabs_pos.
+      assert (Htolx : Rabs (bs_x r - z) <= tol / 100 * X).
+      { assert (0 <= tol \/ tol < 0) as [Ht|Ht] by lra.
+        - assert (tol * Rabs (bs_x r) <= tol * X) by (apply Rmult_le_compat_l; lra). lra.
+        - exfalso. assert (0 <= Rabs (bs_x r)) by apply Rabs_pos. nra. }
+      assert (L * Rabs (bs_x r - z) <= L * (tol / 100 * X)) by (apply Rmult_le_compat_l; lra).
+      lra. }
+  unfold bisection, init_out. cbn [b_lower b_init b_upper nltb RNum].
+  replace (Rltb init lo) with false by (symmetry; apply Rltb_false; lra).
+  replace (Rltb hi init) with false by (symmetry; apply Rltb_false; lra).
+  cbn [orb]. unfold bisect_run. rewrite Hl. cbn [bind].
+  replace (Nat.leb cap (bs_iter r)) with false by (symmetry; apply Nat.leb_gt; exact Hlt).
+  cbn [bind nltb nabs RNum]. rewrite gate_R.
+  replace (Rltb (Rabs (g (bs_x r))) (1 / 10000)) with true by (symmetry; apply Rltb_true; exact Hgate).
+  reflexivity.
 Qed.
 
 (* a root at the lower end is returned at once (the repair e42ded6) *)
@@ -536,3 +638,65 @@ Proof.
   unfold s_eval_univariate. rewrite px2m4_eval. f_equal. ring.
 Qed.
 
+(* ------------------------------------------------------------------------- *)
+(* regression of finding F-C06-STALE-ZERO (repaired by 8dfb6bc): x - 1/2 on    *)
+(* [-3, 1] with init = -1 (the first midpoint).  Iteration 1 has midpoint 0;   *)
+(* the relative change is now INFINITY there, the loop goes on and iteration 2 *)
+(* hits the root 1/2 exactly.                                                  *)
+(* ------------------------------------------------------------------------- *)
+Ltac rbool :=
+  repeat match goal with
+  | |- context [Rltb ?a ?b] =>
+      first [ replace (Rltb a b) with true by (symmetry; apply Rltb_true; lra)
+            | replace (Rltb a b) with false by (symmetry; apply Rltb_false; lra) ]
+  | |- context [Reqb ?a ?b] =>
+      first [ replace (Reqb a b) with true by (symmetry; apply Reqb_true; lra)
+            | replace (Reqb a b) with false by (symmetry; apply Reqb_false; lra) ]
+  end.
+
+Lemma bis_loop_break {T} {NT : Num T} (f : T -> res T) tol cap fuel s s' :
+  bis_body f tol cap s = Ok (s', true) -> bis_loop f tol cap fuel s = Ok s'.
+Proof. intro H. destruct fuel; cbn [bis_loop]; rewrite H; reflexivity. Qed.
+
+Lemma bis_loop_continue {T} {NT : Num T} (f : T -> res T) tol cap fuel s s' :
+  bis_body f tol cap s = Ok (s', false) -> bis_loop f tol cap (S fuel) s = bis_loop f tol cap fuel (bs_next s').
+Proof. intro H. cbn [bis_loop]. rewrite H. reflexivity. Qed.
+
+Lemma c06_stale_zero_repaired :
+  bisection (fun x => Ok (x - 1 / 2)) {| b_lower := -3; b_init := -1; b_upper := 1 |} (1 / 100000) 1200
+    = Ok (1 / 2).
+Proof.
+  unfold bisection, init_out. cbn [b_lower b_init b_upper nltb RNum]. rbool. cbn [orb].
+  unfold bisect_run.
+  set (f := fun x : R => Ok (x - 1 / 2)).
+  set (s1 := {| bs_iter := 0; bs_lower := -1; bs_upper := 1; bs_x := -1; bs_err := Some 0; bs_exact := false |}).
+  set (s2 := {| bs_iter := 1; bs_lower := 0; bs_upper := 1; bs_x := 0; bs_err := None; bs_exact := false |}).
+  set (s3 := {| bs_iter := 2; bs_lower := 0; bs_upper := 1; bs_x := 1 / 2; bs_err := Some 0; bs_exact := true |}).
+  assert (H1 : bis_body f (1 / 100000) 1200 (bis_start {| b_lower := -3; b_init := -1; b_upper := 1 |}) = Ok (s1, false)).
+  { unfold bis_body, bis_start, nneb, f.
+    cbn [bs_iter bs_lower bs_upper bs_x bs_err bs_exact b_lower b_init b_upper bind nadd nsub ndiv nmul nabs neqb nltb n0 RNum].
+    change (@ntwo R RNum) with 2.
+    replace ((-3 + 1) / 2) with (-1) by field.
+    replace (-1 - -1) with 0 by ring. rewrite Rabs_R0.
+    replace (0 / -1 * c100) with 0 by (rewrite c100_R; field).
+    rbool. cbn [negb]. rbool. reflexivity. }
+  assert (H2 : bis_body f (1 / 100000) 1200 (bs_next s1) = Ok (s2, false)).
+  { unfold bis_body, bs_next, s1, nneb, f.
+    cbn [bs_iter bs_lower bs_upper bs_x bs_err bs_exact bind nadd nsub ndiv nmul nabs neqb nltb n0 RNum].
+    change (@ntwo R RNum) with 2.
+    replace ((-1 + 1) / 2) with 0 by field.
+    rbool. cbn [negb]. rbool. reflexivity. }
+  assert (H3 : bis_body f (1 / 100000) 1200 (bs_next s2) = Ok (s3, true)).
+  { unfold bis_body, bs_next, s2, nneb, f.
+    cbn [bs_iter bs_lower bs_upper bs_x bs_err bs_exact bind nadd nsub ndiv nmul nabs neqb nltb n0 RNum].
+    change (@ntwo R RNum) with 2.
+    replace ((0 + 1) / 2) with (1 / 2) by field.
+    replace ((0 - 1 / 2) * (1 / 2 - 1 / 2)) with 0 by field.
+    rbool. reflexivity. }
+  change 1200%nat with (S (S 1198)) at 2.
+  rewrite (bis_loop_continue f _ _ _ _ _ H1), (bis_loop_continue f _ _ _ _ _ H2), (bis_loop_break f _ _ _ _ _ H3).
+  cbn [bind]. unfold s3 at 1. cbn [bs_iter Nat.leb]. unfold s3, f. cbn [bs_x bind nltb nabs RNum].
+  rewrite gate_R.
+  replace (1 / 2 - 1 / 2) with 0 by field. rewrite Rabs_R0.
+  rbool. reflexivity.
+Qed.
